@@ -90,7 +90,10 @@ static std::string runOp(unsigned kind, unsigned k, const std::string& sharedMp,
 			return js + xs + Convert::ToString(w2.a) + Convert::ToString(w3.b) + Convert::ToString(w2.c); }
 		case 15: { // enum names in another letter case, bool and floating-point text
 			return Convert::ToString(Convert::To<Color>(std::string(k % 3 == 0 ? "RED" : k % 3 == 1 ? "gReEn" : "blue"))) + Convert::ToString(Convert::To<double>(std::to_string(k) + ".5")) +
-				Convert::ToString(Convert::To<bool>(std::string(k % 2 ? "TRUE" : "false"))) + Convert::To<std::string>(std::wstring(L"w") + std::to_wstring(k)); }
+				Convert::ToString(Convert::To<bool>(std::string(k % 2 ? "TRUE" : "false"))) + Convert::To<std::string>(std::wstring(L"w") + std::to_wstring(k)) +
+				// numbers parsed from 16/32-bit strings (they are transcoded through a scratch buffer first)
+				Convert::ToString(Convert::To<int>(std::u16string(u"00000000000000000") + Convert::To<std::u16string>(std::to_string(k)))) +
+				Convert::ToString(Convert::To<double>(std::wstring(L"0.5e1") )) + Convert::ToString(Convert::To<int64_t>(Convert::To<std::u32string>(std::to_string(k * 77777LL)))); }
 		case 11: { std::vector<Row> r; LoadObject<Csv::CsvArchive>(r, std::string("x,y,z\r\n1,\"a,b\",1.5\r\n") + std::to_string(k) + ",k,2\r\n"); return std::to_string(r.size()) + r.back().y + std::to_string(r.back().x); }
 		}
 	} catch (const std::exception& e) { return std::string("EXC:") + e.what(); }
